@@ -9,9 +9,10 @@ import CklVerif.Driver.EvalCmd
 import CklVerif.Driver.ParserCmd
 import CklVerif.Driver.LexerCmd
 import CklVerif.Driver.FrontCmd
+import CklVerif.Driver.StrCmd
 open Ckl
 
-def handlers : List (Sx → Option Sx) := [handleValue, handleSeqDate, handleEval, handleParser, handleLexer, handleFront]
+def handlers : List (Sx → Option Sx) := [handleValue, handleSeqDate, handleEval, handleParser, handleLexer, handleFront, handleStr]
 
 def dispatch (req : Sx) : Sx :=
   match handlers.findSome? (fun h => h req) with
